@@ -4,6 +4,7 @@
 package stream
 
 //@ type Stream
+//@   shared
 //@   immutable maxRequestBodyBytes maxResponseBodyBytes verbose log
 //@   setup Wrap
 
